@@ -537,6 +537,8 @@ var cacheOnly = []string{
 	"rescache.EventSubscription.base", "rescache.EventSubscription.queries", "rescache.EventSubscription.links",
 }
 
+var lockedOnly = []string{"rescache.EventSubscription.count"}
+
 // lockStates computes, per instruction of f, whether the mutex field mu is
 // held (1), not held (0) or unknown (2), given the entry state.
 func lockStates(f *ssa.Function, mu *types.Var, entry int) map[ssa.Instruction]int {
@@ -742,6 +744,28 @@ func ruleGuardedBy(c *Ctx) {
 	}
 	for _, q := range cacheOnly {
 		check(q, true)
+	}
+	// the use count of a cache entry is taken by connection goroutines and given back by cache tasks: both
+	// sides touch it with the entry's mutex held, or takes and releases are lost against each other (an entry
+	// evicted under a live subscription, or never evicted)
+	for _, q := range lockedOnly {
+		fld := p.Field(q)
+		if fld == nil {
+			c.undecided(q, "anchor", "-", "field not found")
+			continue
+		}
+		for _, fa := range p.faddrs[fld] {
+			f := fa.Parent()
+			if _, isAlloc := fa.X.(*ssa.Alloc); isAlloc {
+				continue // construction
+			}
+			c.inst(1)
+			ls := 2
+			if st := states[f]; st != nil {
+				ls = st[fa]
+			}
+			c.check(ls == 1, fnName(f), "access to "+q[strings.LastIndex(q, ".")+1:]+" is under the entry's mutex", p.InstrPos(fa), "e.mu held", fmt.Sprintf("lock state %s: the count is touched without the entry's mutex while the other side (subscribers taking, cache tasks releasing a use) holds it — updates are lost", lockName(ls)))
+		}
 	}
 }
 
